@@ -2,18 +2,18 @@
 (* Arbitrary-precision integers inside TLC: sign + little-endian limbs base 10^4.
    big = [s |-> -1 | 0 | 1, m |-> magnitude]; <<>> is 0; no trailing zero limbs. *)
 EXTENDS Integers, Sequences
-B == 10000
+Base == 10000
 RECURSIVE Trim(_)
 Trim(m) == IF Len(m) > 0 /\ m[Len(m)] = 0 THEN Trim(SubSeq(m, 1, Len(m) - 1)) ELSE m
 RECURSIVE MagFromNat(_)
-MagFromNat(n) == IF n = 0 THEN <<>> ELSE <<n % B>> \o MagFromNat(n \div B)
+MagFromNat(n) == IF n = 0 THEN <<>> ELSE <<n % Base>> \o MagFromNat(n \div Base)
 BigOf(i) == IF i = 0 THEN [s |-> 0, m |-> <<>>] ELSE IF i > 0 THEN [s |-> 1, m |-> MagFromNat(i)] ELSE [s |-> -1, m |-> MagFromNat(-i)]
 Lb(m, i) == IF i <= Len(m) THEN m[i] ELSE 0
 MaxI(a, b) == IF a > b THEN a ELSE b
 RECURSIVE AddMagR(_,_,_,_)
 AddMagR(a, b, i, carry) ==
   IF i > MaxI(Len(a), Len(b)) THEN (IF carry = 0 THEN <<>> ELSE <<carry>>)
-  ELSE LET t == Lb(a, i) + Lb(b, i) + carry IN <<t % B>> \o AddMagR(a, b, i + 1, t \div B)
+  ELSE LET t == Lb(a, i) + Lb(b, i) + carry IN <<t % Base>> \o AddMagR(a, b, i + 1, t \div Base)
 AddMag(a, b) == AddMagR(a, b, 1, 0)
 RECURSIVE CmpMagR(_,_,_)
 CmpMagR(a, b, i) == IF i = 0 THEN 0 ELSE IF Lb(a, i) > Lb(b, i) THEN 1 ELSE IF Lb(a, i) < Lb(b, i) THEN -1 ELSE CmpMagR(a, b, i - 1)
@@ -21,11 +21,11 @@ CmpMag(a, b) == IF Len(a) > Len(b) THEN 1 ELSE IF Len(a) < Len(b) THEN -1 ELSE C
 RECURSIVE SubMagR(_,_,_,_)     \* requires a >= b
 SubMagR(a, b, i, borrow) ==
   IF i > Len(a) THEN <<>> ELSE
-  LET t == Lb(a, i) - Lb(b, i) - borrow IN IF t < 0 THEN <<t + B>> \o SubMagR(a, b, i + 1, 1) ELSE <<t>> \o SubMagR(a, b, i + 1, 0)
+  LET t == Lb(a, i) - Lb(b, i) - borrow IN IF t < 0 THEN <<t + Base>> \o SubMagR(a, b, i + 1, 1) ELSE <<t>> \o SubMagR(a, b, i + 1, 0)
 SubMag(a, b) == Trim(SubMagR(a, b, 1, 0))
 RECURSIVE MulLimbR(_,_,_,_)
 MulLimbR(a, d, i, carry) == IF i > Len(a) THEN (IF carry = 0 THEN <<>> ELSE <<carry>>)
-                            ELSE LET t == a[i] * d + carry IN <<t % B>> \o MulLimbR(a, d, i + 1, t \div B)
+                            ELSE LET t == a[i] * d + carry IN <<t % Base>> \o MulLimbR(a, d, i + 1, t \div Base)
 MulLimb(a, d) == IF d = 0 THEN <<>> ELSE MulLimbR(a, d, 1, 0)
 RECURSIVE MulMagR(_,_,_)
 MulMagR(a, b, j) == IF j > Len(b) THEN <<>> ELSE AddMag(MulLimb(a, b[j]), <<0>> \o MulMagR(a, b, j + 1))
@@ -42,7 +42,7 @@ RECURSIVE BFact(_)
 BFact(n) == IF n <= 1 THEN BigOf(1) ELSE BMul(BigOf(n), BFact(n - 1))
 BCmp(x, y) == IF x.s # y.s THEN (IF x.s > y.s THEN 1 ELSE -1) ELSE IF x.s = 0 THEN 0 ELSE x.s * CmpMag(x.m, y.m)
 RECURSIVE ToIntMag(_)
-ToIntMag(m) == IF Len(m) = 0 THEN 0 ELSE m[1] + B * ToIntMag(Tail(m))
+ToIntMag(m) == IF Len(m) = 0 THEN 0 ELSE m[1] + Base * ToIntMag(Tail(m))
 \* only for values known to fit (at most two limbs)
 SmallInt(x) == x.s * ToIntMag(x.m)
 IsSmall(x) == Len(x.m) <= 2
